@@ -56,6 +56,9 @@ def _serialize_check_stats(check_stats, dtype=None):
     """Serialize check statistics into json/yaml-compatible format."""
 
     def handle_stat_dtype(stat):
+        if isinstance(stat, (list, tuple)):
+            # e.g. the values of isin / notin
+            return [handle_stat_dtype(item) for item in stat]
         # also for time zone aware and non-nanosecond datetime dtypes
         if dtypes.is_datetime(dtype) and hasattr(stat, "strftime"):
             # try serializing stat as a string if it's datetime-like,
@@ -200,6 +203,8 @@ def _deserialize_check_stats(check, serialized_check_stats, dtype=None):
     """Deserialize check statistics and reconstruct check with options."""
 
     def handle_stat_dtype(stat):
+        if isinstance(stat, list):
+            return [handle_stat_dtype(item) for item in stat]
         try:
             if dtypes.is_datetime(dtype):
                 return pd.to_datetime(stat, format="ISO8601")
